@@ -112,14 +112,21 @@ def compare(name, scs, res, per=25):
 
 
 def concerns(pid, sc, res, code, inst, plain_mismatch):
-    if code in (12, 13, 14):
+    if code == 14:
+        # the model raised (class in `inst`: 1 TypeError, 2 ValueError, ...) where gearpy did not: with a rule set in play this is
+        # the arbitration / rules (two applicable rules, setter range), otherwise it may concern anything
+        has_rules = any(op[0] == 'run' and op[3] for op in sc['ops'])
+        if has_rules and inst in (1, 2):
+            return pid in ('C14', 'C15')
+        return True
+    if code in (12, 13):
         msg = (res.get('errmsg') or '') + ' ' + ' '.join(res.get('errwhere', []))
         kws = ERR_KEYWORDS[pid]
         known_any = any(k in msg for ks in ERR_KEYWORDS.values() for k in ks)
         return (not known_any) or any(k in msg for k in kws)
     if pid == 'C12':
         sched = any(op[0] in ('reset', 'newsolver') for op in sc['ops']) or len([op for op in sc['ops'] if op[0] == 'run']) > 1
-        return sched and not plain_mismatch and (code in (1, 10, 11) or True)
+        return sched and not plain_mismatch and code not in (5, 6, 7, 8, 9)
     return code in CODES[pid]
 
 
